@@ -282,3 +282,14 @@ func init() {
 		ruleKeyMember(c, r)
 	})
 }
+
+func init() {
+	register("C29", func(c *Ctx, r *Report) {
+		r.Decides("resolution is a pure function of the path structs (nothing cached, ModifyKey always observed), emits the relative schema path names in order with every key stringified through KeyValueAsString on the last element, ancestors first; the generated constructor passes its receiver as parent and the generator's relative-path list and key map; every list constructor's key map has one entry per key (value or \"*\"), empty only for the all-wildcard non-builder case under SimplifyWildcardPaths; path lists and GoStruct path tags come from the same IR field data.",
+			"that every node of every generated API resolves to its schema's data-tree path (value level, per schema); agreement of generated Go key names with the user's expectations on camel-case collisions.")
+		rulePathResolve(c, r)
+		rulePathTemplates(c, r)
+		rulePathKeyEntries(c, r)
+		ruleTablesKeys(c, r)
+	})
+}
